@@ -13,6 +13,9 @@ ENGINES = {
     "enumcheck": dict(workspace="harness", package="enumcheck",
                       kind="bounded-exhaustive input-lattice enumeration on the real codecs / pure functions with "
                            "round-trip, differential and totality oracles (crash-isolated)"),
+    "xcdrcheck": dict(workspace="harness", package="xcdrcheck",
+                      kind="bounded-exhaustive type x value lattice enumeration on the real XCDR serializer/deserializer, key hash, "
+                           "discovery parameter lists and type assignability, against an own reference codec (refcodec.rs)"),
     "loomcheck": dict(workspace="loomcheck", package="loomcheck",
                       kind="loom: exhaustive preemption-bounded thread interleavings of the unmodified channel and "
                            "std-runtime sources compiled against loom-backed shims"),
@@ -473,6 +476,58 @@ reg("C25", hist("All timestamp sequences (length 5 / 6) over {1..5} incl. out-of
                 "orders, takes in between: a data sample closer than the separation to any previously accepted data sample of the instance "
                 "must be filtered, one that is far from every accepted change must not be.",
                 HIST_RULE, "DESIGN.md §4 C25"))
+
+
+# ---------------------------------------------------------------------------------------------------------
+# E3b xcdrcheck
+# ---------------------------------------------------------------------------------------------------------
+X_NOTE = ("Trusted: the own reference codec /verif/harness/xcdrcheck/src/refcodec.rs (XCDR1/XCDR2 encoder + strict decoder written from "
+          "DDS-XTypes 1.3 7.4, calls no dust-dds code; encoder and decoder check each other on every case: reference_selfcheck_failures "
+          "must be 0), the AST<->DynamicType bridge, md5. The reference is a second reading of the standard, not another vendor: points "
+          "on which vendors differ (wstring length convention; XCDR version/order of the key stream) are recorded as accepted "
+          "alternatives, not findings (NOTES.md §6, DESIGN.md §7.4). Every failing case is reduced to the smallest failing shape before "
+          "its signature is formed; each stored finding re-runs under --replay.")
+def xc(level, text, rule, assumptions, floor, timeout=(300, 7200)):
+    return Spec("xcdrcheck", level, text, X_NOTE, "bounded-exhaustive enumeration of a type x value x representation lattice against a reference codec",
+                "DESIGN.md §4, /verif/harness/xcdrcheck/NOTES.md", rule, assumptions, floor=floor, timeout=timeout, mem_gb=8)
+
+reg("C09", xc("exploration",
+    "All struct types of the lattice (quick 36 288: 1-2 members over 21 member kinds x {plain,key,optional} x {final,appendable,mutable} x "
+    "{sequential,sparse,large} ids; thorough 839 241 incl. 3 members and 33 kinds) x the full cartesian product of boundary values per "
+    "member x {XCDR1,XCDR2} x {LE,BE}: deserialize(serialize(v)) == v (floats bitwise), length multiple of 4, options byte = padding "
+    "count established by the reference decoder; panics caught.",
+    "every (type, value, representation) of the lattice; evaluations = cases",
+    ["nesting bound 2, collections up to length 3, boundary value lattice (NOTES.md §2)", "maps, bitmasks, char16, nested collections not enumerated (todo!() in the serializer)"],
+    (1_000_000, 1000)))
+reg("C10", xc("exploration",
+    "Same lattice as C09. (a) dust-dds bytes == reference bytes, else the strict reference decoder must read them back to v (legal "
+    "alternative) or the smallest set of named deviations is reported; (b) reference bytes - canonical and legal alternatives dust-dds "
+    "never produces (long headers, padded lengths, reordered / unknown members, LC variants, both list ends) - must decode in dust-dds to v.",
+    "every (type, value, representation, encoding variation) of the lattice; evaluations = comparisons + decodings",
+    ["reference = own reading of DDS-XTypes 1.3 (no other vendor installed)", "wstring length convention accepted either way"],
+    (1_000_000, 1000)))
+reg("C11", xc("exploration",
+    "24 keyed shapes x outer extensibility (48 types, thorough 72) x ALL ORDERED PAIRS of lattice values: handle(a) == handle(b) iff the "
+    "XTypes key holders are equal (key members only, recursively).",
+    "all ordered value pairs of every keyed type of the lattice", ["key members capped at 8 lattice values, others 3"], (100_000, 50)))
+reg("C12", xc("exploration",
+    "Same keyed types, every value: instance handle == own key hash per 7.6.8 (zero padded when the MAXIMUM size of the key holder is <= 16, "
+    "MD5 otherwise); a mismatch is explained by the smallest set of named deviations, each a finding.",
+    "every value of every keyed type of the lattice", ["XCDR version and member order of the key stream are not fixed by the property: both accepted"], (1000, 30)))
+reg("C13", xc("exploration",
+    "Field tables of the 4 announcement kinds with per-field boundary lattices: all-default + every single-field variation (thorough: every "
+    "pair of variations), each put on the wire in 5 ways (LE/BE, defaults sent or omitted, reversed order) and with 5 unknown parameter ids "
+    "spliced at every boundary: from_bytes succeeds and shows every announced value, from_bytes(into_bytes(x)) == x, unknown ids ignored.",
+    "every assignment x wire form x splice position of the lattice",
+    ["values enter through from_bytes of own bytes (the discovery structs cannot be constructed from outside the crate), hence octet "
+     "sequences > 65 528 bytes are not reachable here (the > 65 535 part of the property is covered at message level by C08/KF-C08-1)"],
+    (10_000, 100)))
+reg("C39", xc("exploration",
+    "5 base member lists x 3 extensibilities x 22 edits (thorough: all pairs of edits) x both directions x 3 type-consistency settings: "
+    "reflexivity; dust-dds's assignability answer vs own reading of 7.2.4.4.8; for pairs assignable under the rules every writer value "
+    "(XCDR1/XCDR2) must decode with the reader's type to the common members + defaults.",
+    "every (writer type, reader type, setting, value, representation) of the lattice; evaluations = type pairs x settings; states = value decodings",
+    ["struct types only (enum/union evolution not enumerated)"], (500, 100)))
 
 
 # ---------------------------------------------------------------------------------------------------------
